@@ -16,6 +16,7 @@ Decided statically:
     before Ok is returned.
 Not decided: races between refill and callers as such; server behaviour.
 """
+from ..inline import inline_view
 from ..mir import AnchorLost
 from ..dataflow import DisjFlow
 from ..util import enum_variant_of_operand, df_of, fn_short, in_set, operand_path, path_last, backward_slice, field_writers, callers_keys, switch_on, switch_edges, yields, _rv_locals
@@ -286,7 +287,7 @@ def r5(ctx, facts):
 
 
 def check(ctx):
-    facts = ctx.facts("default")
+    facts = inline_view(ctx.facts("default"))
     for fn in (r1, r2, r3, r4, r5):
         try:
             fn(ctx, facts)
